@@ -259,13 +259,15 @@ def _(c):
 
 
 # ---- exponents are rational numbers of any size: denominators beyond 1000, written directly or arising as a sum, are kept exactly ------------
-BIG_EXPS = [("m1:1001", [("", "m", 1, 1001)]), ("kg-3:1024", [("k", "g", -3, 1024)]), ("N5:2003/s", [("", "N", 5, 2003), ("", "s", -1, 1)]),
+BIG_EXPS = [("m*s/m", [("", "s", 1, 1)]), ("kg*m2/(kg*s)", [("", "m", 2, 1), ("", "s", -1, 1)]), ("km*Pa/km", [("", "Pa", 1, 1)]), ("cm1:2*J*cm-1:2", [("", "J", 1, 1)]),
+            ("m*s*K/(m*s)", [("", "K", 1, 1)]),   # a unit that cancels exactly is gone, whatever follows it stays
+            ("m1:1001", [("", "m", 1, 1001)]), ("kg-3:1024", [("k", "g", -3, 1024)]), ("N5:2003/s", [("", "N", 5, 2003), ("", "s", -1, 1)]),
             ("m1:7*m1:11*m1:13", [("", "m", 311, 1001)]), ("cm1:999", [("c", "m", 1, 999)]), ("statV7:1500", [("", "statV", 7, 1500)])]
 
 
 @contract(f"{BU}.__init__", ["C03"], name="BaseUnits.__init__[large-denominators]")
 def _(c):
-    c.bound = "the listed expressions with exponent denominators around and beyond 1000"
+    c.bound = "the listed expressions: exponent denominators around and beyond 1000; units that cancel exactly in front of other units"
     for expr, terms in BIG_EXPS:
         def pre(b, expr=expr, terms=terms):
             return dict(args=[b.obj(BU), expr], env=dict(f=U.factor(terms), dv=[(x.numerator, x.denominator) for x in U.dims(terms)]))
